@@ -18,7 +18,8 @@ RAW = MapT(LogT({'frame': 'V'}), total=True)                   # engine.io frame
 TASKS = LogT({'fn': 'V', 'args': 'seq'})                       # background tasks started
 DISP = LogT({'event': 'V', 'ns': 'V', 'args': 'seq', 'ret': 'V'})   # abstract effect: one dispatch of an event to the responsible target (defined by C13)
 
-GHOST = {'calls': CALLS, 'out': OUT, 'raw': RAW, 'tasks': TASKS, 'disp': DISP}
+ISSUED = MapT(Leaf('B'), total=True)                            # session ids ever returned by eio.generate_id()
+GHOST = {'calls': CALLS, 'out': OUT, 'raw': RAW, 'tasks': TASKS, 'disp': DISP, 'issued': ISSUED}
 
 
 def server_world(name='server', server_cls=('server', 'Server'), manager_cls=('manager', 'Manager')):
